@@ -586,12 +586,18 @@ def run(ctx: Ctx):
     for k in range(n_gen):
         fam = G.FAMILIES[k % 3]
         cfg = G.gen_scenario(rng, size=1 + (k // 3) % 3, family=fam, shadowing=(k % 4 == 3), node_sets=False)
-        cases.append((f"gen:{k}:{fam}", cfg, ctx.scale(10, 20) if k % ctx.scale(7, 5) == 0 else 0))
+        steps = ctx.scale(10, 20) if k % ctx.scale(7, 5) == 0 else 0
+        if k % 3 != 2:   # two of three carry the round-4 sections (defaults, wireless router + airspace, node set, documented ACL keys)
+            cfg = G.enrich(cfg, rng, stepped=bool(steps))
+        cases.append((f"gen:{k}:{fam}", cfg, steps))
     # 2b. software matrix: every software type x non-default options x declared operating state of the node
     mrng = ctx.rng.fork("matrix")
     for k in range(ctx.scale(10, 90)):
         cfg = G.gen_software_matrix(mrng, size=1 + k % 3)
-        cases.append((f"matrix:{k}", cfg, ctx.scale(8, 16) if k % ctx.scale(5, 4) == 0 else 0))
+        steps = ctx.scale(8, 16) if k % ctx.scale(5, 4) == 0 else 0
+        if k % 2 == 1:
+            cfg = G.enrich(cfg, mrng, stepped=bool(steps))
+        cases.append((f"matrix:{k}", cfg, steps))
     # 3. shipped single-file scenarios
     shipped = scen.shipped()
     for name, path in shipped.items():
@@ -666,6 +672,14 @@ def run(ctx: Ctx):
             ctx.count("second-build-from-same-mapping")
             ctx.cov["evaluations"] += 1
         summ = G.summary(cfg) if "simulation" in cfg else {}
+        netc = cfg.get("simulation", {}).get("network", {}) if "simulation" in cfg else {}
+        for flag, present in (("defaults-section", bool(cfg.get("defaults"))), ("node-set-in-scenario", bool(netc.get("node_sets"))),
+                              ("airspace-capacities", bool((netc.get("airspace") or {}).get("frequency_max_capacity_mbps"))),
+                              ("wireless-router", any(n.get("type") == "wireless-router" for n in netc.get("nodes") or [])),
+                              ("documented-acl-keys", "src_ip_address" in json.dumps(netc) or "dst_ip_address" in json.dumps(netc)),
+                              ("bandwidth-0", any(l.get("bandwidth") == 0 for l in netc.get("links") or []))):
+            if present:
+                ctx.count("has:" + flag)
         off_hosts = [n for n in (cfg.get("simulation", {}).get("network", {}).get("nodes") or [])
                      if str(n.get("operating_state", "ON")).upper() not in ("ON", "TRUE") and n.get("operating_state") not in (None, "", False)
                      and (n.get("services") or n.get("applications"))]
@@ -715,6 +729,31 @@ def run(ctx: Ctx):
         if kind in ("gen", "matrix") and len(ctx.cov["samples"]) < 4 and inv is not None and (kind == "matrix" or len(ctx.cov["samples"]) < 2):
             ctx.sample({"case": name, "summary": summ, "inventory_lines": len(inv), "first": inv[:3],
                         "a_software_line": next((l for l in inv if l.startswith("sw ") and "=" in l.split(" h=")[-1]), None)})
+    # quoted integers, one KIND of integer site at a time: the file either builds the identical simulation or is refused loudly
+    # (a quoted scalar is a string in YAML's data model; the loader may insist on an integer, it may not build something else)
+    qrng = ctx.rng.fork("quoted")
+    pool = [(nm, cfg) for nm, cfg, _ in cases if nm.split(":")[0] in ("gen", "matrix")]
+    for nm, cfg in qrng.shuffle(pool)[: ctx.scale(3, 20)]:
+        game, f = _load(cfg)
+        if f:
+            continue
+        inv = R.inventory(game, cfg)
+        for site, v in G.quoted_int_sites(cfg):
+            g2, f2 = _load(v)
+            ctx.cov["evaluations"] += 1
+            if f2:
+                ctx.count(f"quoted-integer:{site}:refused:{f2['exc']}")
+                continue
+            inv2 = R.inventory(g2, cfg)
+            if inv2 == inv:
+                ctx.count(f"quoted-integer:{site}:same")
+            else:
+                diff = sorted(set(inv) ^ set(inv2))
+                ctx.count(f"quoted-integer:{site}:DIFFERENT")
+                ctx.violation({"kind": "quoted-integer-builds-another-simulation", "site": site},
+                              f"{nm}: quoted integers at '{site}' build another simulation: {diff[:4]}",
+                              {"mode": "scenario", "cfg": v, "digest_steps": 0, "raw_keys": True, "from": nm, "site": site,
+                               "expected_inventory_of": cfg})
     ctx.count("nodes-not-in-declared-state-after-reset (F-31, not claimed)", f31_total)
     ctx.oblige("rig:R-cfg the modelled loader (Lean build) agrees with the real inventory on every modelled scenario", "correspondence",
                agree == modelled, f"{modelled - agree} of {modelled} scenarios disagree")
